@@ -120,8 +120,10 @@ def check_generate(ctx, cfg, key, boxed):
     an = ctx.analysis(cfg, key)
     owners = owner_adts(ctx.db(cfg))
     N = an.tenv.length([x for x in (b["impl_self"]["args"] if not boxed else adt_args(b["impl_self"])[0]["args"]) if x.get("k") != "region"][-1])
+    from ..ownership import never_breaks, resolved_args
     fe = [c for c in an.calls if c.fn in ("core::iter::Iterator::for_each", "core::iter::Iterator::fold", "core::iter::Iterator::try_for_each")]
-    ok = len(fe) == 1 and fe[0].fn == "core::iter::Iterator::for_each"
+    # `try_for_each` whose residual is uninhabited (Result<(), Infallible>) visits every item exactly like for_each
+    ok = len(fe) == 1 and (fe[0].fn == "core::iter::Iterator::for_each" or (fe[0].fn == "core::iter::Iterator::try_for_each" and never_breaks(fe[0])))
     det = "expected exactly one for_each over the destination; found %s" % [c.fn for c in fe]
     ext = [c for c in an.calls if c.key in ("IntrusiveArrayBuilder<$0,$1>::extend", "ArrayBuilder<$0,$1>::extend")]
     if not fe and len(ext) == 1:
@@ -143,7 +145,7 @@ def check_generate(ctx, cfg, key, boxed):
     elif not fe:
         ok, det = generate_loop_form(an, owners, N)
     elif ok:
-        pipe, cv = fe[0].args[0], fe[0].args[1]
+        pipe, cv = resolved_args(an, fe[0])[0], fe[0].args[1]
         # the index paired with slot k is k: `slots.enumerate()` or, equivalently, `(0..N).zip(slots)` (k-th item of 0..N is k)
         if isinstance(pipe, tuple) and len(pipe) == 5 and pipe[:3] == ("V", "iter", "zip") and isinstance(pipe[3], tuple) and len(pipe[3]) == 3 and pipe[3][0] == "A" \
                 and isinstance(pipe[3][1], tuple) and pipe[3][1][:2] == ("adt", "core::ops::Range") and pipe[3][2][0] == ("I", Poly.const(0)) and pipe[3][2][1] == ("I", N):
@@ -282,11 +284,16 @@ def check_map_fold(ctx, cfg):
         for f in fi:
             pipe = f.args[0]
             shape = isinstance(pipe, tuple) and len(pipe) == 5 and pipe[:3] == ("V", "iter", "map")
-            src_ok = shape and full_slice(an, f.facts, pipe[3], N, consumer_array_base(an, f, owners)(("V", "arg", 1)))
+            inner = pipe[3] if shape else None
+            # `slots.enumerate().map(|(i, src)| ..)`: the same traversal with the slot's index alongside (item = (k, slot k))
+            enum = shape and isinstance(inner, tuple) and len(inner) == 4 and inner[:3] == ("V", "iter", "enumerate")
+            if enum:
+                inner = inner[3]
+            src_ok = shape and full_slice(an, f.facts, inner, N, consumer_array_base(an, f, owners)(("V", "arg", 1)))
             cb, ca = closure_body(ctx, cfg, pipe[4]) if shape else (None, None)
             c_ok = False
             if ca is not None:
-                v = read_of(ca, slot_val())
+                v = read_of(ca, slot_val(1) if enum else slot_val())
                 once, args_ok, call = check_f_call(ca, [v]) if v is not None else (False, False, None)
                 c_ok = once and args_ok and call is not None and all(r["val"] == call.ret for r in ca.returns)
             good = shape and src_ok and c_ok and not bad_adaptors(pipe)
@@ -312,12 +319,14 @@ def check_map_fold(ctx, cfg):
             dets.append(d0)
             ctx.ob(rule, key, ok, d0, at=b["at"], cfg=cfg)
             return n + 1
+        from ..ownership import never_breaks, resolved_args
         for f in fo:
-            if f.fn != "core::iter::Iterator::fold":
+            tryf = f.fn == "core::iter::Iterator::try_fold" and never_breaks(f)
+            if f.fn != "core::iter::Iterator::fold" and not tryf:
                 ok = False
-                dets.append("traversal by %s (a left fold must use Iterator::fold over the forward iterator)" % f.fn)
+                dets.append("traversal by %s (a left fold must use Iterator::fold - or try_fold with an uninhabited residual - over the forward iterator)" % f.fn)
                 continue
-            it_, init, cv = f.args
+            it_, init, cv = resolved_args(an, f)
             src_ok = full_slice(an, f.facts, it_, N, consumer_array_base(an, f, owners)(("V", "arg", 1)))
             cb, ca = closure_body(ctx, cfg, cv)
             c_ok = False
@@ -325,11 +334,12 @@ def check_map_fold(ctx, cfg):
                 rs = [c for c in ca.calls if c.fn == "core::ptr::read" and c.args[0][0] == "P" and c.args[0][1] == ("arg", 3)]
                 v = rs[0].ret if len(rs) == 1 else None
                 once, args_ok, call = check_f_call(ca, [("V", "arg", 2), v]) if v is not None else (False, False, None)
-                c_ok = once and args_ok and call is not None and all(r["val"] == call.ret for r in ca.returns)
+                wrapped = call is not None and ("A", ("adt", "core::result::Result", 0), (call.ret,))
+                c_ok = once and args_ok and call is not None and all(r["val"] == call.ret or (tryf and r["val"] == wrapped) for r in ca.returns)
             good = src_ok and init == ("V", "arg", 2) and c_ok and not bad_adaptors(it_)
             ok = ok and good
             dets.append("fold(iter over the whole source array (forward), init, cl): %s; init passed through: %s; closure = f(acc, read(slot)) once: %s" % (src_ok, init == ("V", "arg", 2), c_ok))
-        ok = ok and all(any(r["val"] == f.ret for f in fo) or r["val"][0] == "V" for r in an.returns)
+        ok = ok and all(any(r["val"] == f.ret or r["val"] == ("V", "proj", ("proj", f.ret, (("v", 0), 0))) for f in fo) or r["val"][0] == "V" for r in an.returns)
         ctx.ob(rule, key, ok, "; ".join(dets) if dets else "no fold found", at=b["at"], cfg=cfg)
         n += 1
     return n
@@ -341,6 +351,12 @@ def check_zip_body(ctx, cfg, key, branches):
     rule = "C08.Z"
     b = ctx.db(cfg).get(key)
     if b is None:
+        dflt = "trait GenericSequence::" + key.split("::")[-1]
+        if not key.startswith("trait ") and ctx.db(cfg).get(dflt) is not None:
+            # an optional override of the owned receiver is absent: the trait's provided method (judged as `%s`) runs instead,
+            # over into_iter(self) - the by-value iterator, whose order and exactly-once behaviour are C06's
+            ctx.ob(rule, key, PROVED, "no override for the owned receiver: the provided %s (checked separately) runs over the by-value iterator" % dflt, cfg=cfg)
+            return 1
         ctx.ob(rule, key, MISSING, "zip body not found", cfg=cfg)
         return 0
     an = ctx.analysis(cfg, key)
@@ -483,7 +499,27 @@ def check_default_clone(ctx, cfg):
         if ca is not None:
             dc = [c for c in ca.calls if c.fn == "core::default::Default::default"]
             c_ok = len(dc) == 1 and len(payload_calls(ca)) == 1 and all(r["val"] == dc[0].ret for r in ca.returns) and tstr(dc[0].targs[0]) == tstr(adt_args(b["impl_self"])[0])
-        ctx.ob(rule, key, ok and c_ok, "Default = Self::generate(|_| T::default()): %s/%s" % (ok, c_ok), at=b["at"], cfg=cfg)
+        det = "Default = Self::generate(|_| T::default()): %s/%s" % (ok, c_ok)
+        if not (ok and c_ok):
+            # the same N calls of T::default() in index order through the collecting constructor: from_iter(repeat_with(T::default).take(N))
+            # (from_iter stores the k-th item in slot k and pulls exactly N items plus one probe, which take(N) answers without calling the generator)
+            N_ = an.tenv.length(adt_args(b["impl_self"])[1])
+            T_ = tstr(adt_args(b["impl_self"])[0])
+            fi = [c for c in pc if c.fn == "core::iter::FromIterator::from_iter"]
+            rw = [c for c in pc if c.fn == "core::iter::repeat_with"]
+            tk = [c for c in pc if c.fn == "core::iter::Iterator::take"]
+            if len(fi) == 1 and len(rw) == 1 and len(tk) == 1 and len(pc) == 3:
+                gen = rw[0].args[0]
+                g_ok = gen == ("V", "fn", "core::default::Default::default") and tstr(rw[0].targs[0]) == T_ if rw[0].targs else False
+                if not g_ok:
+                    cb2, ca2 = closure_body(ctx, cfg, gen)
+                    if ca2 is not None:
+                        dc = [c for c in ca2.calls if c.fn == "core::default::Default::default"]
+                        g_ok = len(dc) == 1 and len(payload_calls(ca2)) == 1 and all(r["val"] == dc[0].ret for r in ca2.returns) and tstr(dc[0].targs[0]) == T_
+                chain = tk[0].args[0] == rw[0].ret and tk[0].args[1] == ("I", N_) and fi[0].args[0] == tk[0].ret and all(r["val"] == fi[0].ret for r in an.returns)
+                ok, c_ok = bool(chain), bool(g_ok)
+                det = "Default = from_iter(repeat_with(T::default).take(N)): chain %s, generator is T::default: %s" % (chain, g_ok)
+        ctx.ob(rule, key, ok and c_ok, det, at=b["at"], cfg=cfg)
     key = "<GenericArray<$0,$1> as core::clone::Clone>::clone"
     b = ctx.body(cfg, key, rule)
     if b is not None:
@@ -501,7 +537,24 @@ def check_default_clone(ctx, cfg):
         ok = len(pc) == 1 and pc[0].fn.endswith("FunctionalSequence::map") and pc[0].args[0][0] == "P" and pc[0].args[0][1] == ("arg", 1) and is_clone_fn(pc[0].args[1])
         recv = pc[0].targs[0] if ok else None
         ok = ok and recv.get("k") == "ref" and not recv["mut"] and all(r["val"] == pc[0].ret for r in an.returns)
-        ctx.ob(rule, key, ok, "Clone = (&self).map(Clone::clone) on the shared-reference receiver: %s" % ok, at=b["at"], cfg=cfg)
+        det = "Clone = (&self).map(Clone::clone) on the shared-reference receiver: %s" % ok
+        if not ok:
+            # element-wise through the collecting constructor: from_iter(self.iter().cloned()) / from_iter(self.iter().map(Clone::clone)):
+            # the k-th item is self[k].clone(), evaluated when slot k is filled; no clone call for the probe (the slice iterator is exhausted)
+            N_ = an.tenv.length(adt_args(b["impl_self"])[1])
+            fi = [c for c in pc if c.fn == "core::iter::FromIterator::from_iter"]
+            if len(fi) == 1:
+                pipe = fi[0].args[0]
+                inner = None
+                if isinstance(pipe, tuple) and len(pipe) == 4 and pipe[:3] == ("V", "iter", "cloned"):
+                    inner = pipe[3]
+                elif isinstance(pipe, tuple) and len(pipe) == 5 and pipe[:3] == ("V", "iter", "map") and is_clone_fn(pipe[4]):
+                    inner = pipe[3]
+                whole = isinstance(inner, tuple) and len(inner) == 5 and inner[:3] == ("V", "iter", "slice") and inner[3][0] == "P" and inner[3][1] == ("arg", 1) and not inner[3][2].t and inner[3][3] == N_
+                others = [c.fn for c in pc if c is not fi[0] and c.fn not in ("core::slice::<impl [T]>::iter", "core::iter::Iterator::cloned", "core::iter::Iterator::map")]
+                ok = bool(whole) and not others and all(r["val"] == fi[0].ret for r in an.returns)
+                det = "Clone = from_iter over the element-wise clones of the whole of self, in order: %s" % ok
+        ctx.ob(rule, key, ok, det, at=b["at"], cfg=cfg)
     if cfg != "F0":
         key = "GenericArray<$0,$1>::default_boxed"
         b = ctx.body(cfg, key, rule)
